@@ -206,6 +206,31 @@ class CFG:
         return out
 
 
+    def iteration_paths(self, loop, limit=5000):
+        """Paths of one iteration of ``loop``: from the loop head along its
+        body-entry edge until the head is reached again (or the function is
+        left).  Each path is a list of (node, label-of-edge-taken)."""
+        out = []
+
+        def rec(n, path, visited):
+            if len(out) >= limit:
+                return
+            for b, lab in self.succ.get(n, ()):
+                if n is loop and len(path) == 0:
+                    enter = lab is not None and (lab == ('iter', True) or (lab[0] is getattr(loop, 'test', None) and lab[1]))
+                    if not enter:
+                        continue
+                e = (id(n), id(b), id(lab[0]) if lab else None, lab[1] if lab else None)
+                if e in visited:
+                    continue
+                if b is loop or b in (EXIT, RAISE):
+                    out.append(path + [(n, lab), (b, None)])
+                    continue
+                rec(b, path + [(n, lab)], visited | {e})
+        rec(loop, [], frozenset())
+        return out
+
+
 _cache = {}
 
 
